@@ -31,6 +31,8 @@ The loader applies these rewrites, each of which preserves behaviour exactly, be
      locals written out - provided the body then is straight-line and ends in one `return E`.
      (`def reduce_row(op): return ns.reduce(op, axis="dim")` ... `self.sum = reduce_row(torch.sum)`)
  K12 `a, b = x, y` (plain names on the left, as many values on the right, no value mentions a target) -> `a = x; b = y`.
+ K13 `f(x, **opts)` with `opts` a local bound once to a dict display of identifier keys and literal / reference values
+     (possibly spreading another such dict), never mutated -> `f(x, k1=v1, k2=v2)`.
  K3  `not (a == b)` -> `a != b`, `not (a != b)` -> `a == b`, `not (a is b)` -> `a is not b`, `not (a in b)` -> `a not in b`
      (and the inverses `not (a is not b)`, `not (a not in b)`), for single-operator comparisons.
 
@@ -702,6 +704,76 @@ def _split_tuple_assignments(tree, count):
     tree.body = block(tree.body)
 
 
+def _spread_keyword_dicts(fn, count):
+    import keyword as _kw
+
+    cands = {}
+    for st in fn.body:
+        if isinstance(st, ast.Assign) and len(st.targets) == 1 and isinstance(st.targets[0], ast.Name) and isinstance(st.value, ast.Dict):
+            cands[st.targets[0].id] = st.value
+    if not cands:
+        return
+    bad = set()
+    stores = {}
+    for x in ast.walk(fn):
+        if isinstance(x, ast.Name) and x.id in cands and not isinstance(x.ctx, ast.Load):
+            stores[x.id] = stores.get(x.id, 0) + 1
+        if isinstance(x, ast.Attribute) and isinstance(x.value, ast.Name) and x.value.id in cands and x.attr not in ("items", "keys", "values", "get", "copy"):
+            bad.add(x.value.id)
+        if isinstance(x, ast.Subscript) and isinstance(x.value, ast.Name) and x.value.id in cands and not isinstance(x.ctx, ast.Load):
+            bad.add(x.value.id)
+        if isinstance(x, (ast.AugAssign,)) and isinstance(x.target, ast.Name) and x.target.id in cands:
+            bad.add(x.target.id)
+        if isinstance(x, (ast.Global, ast.Nonlocal)):
+            bad.update(n for n in x.names if n in cands)
+        if isinstance(x, ast.arg) and x.arg in cands:
+            bad.add(x.arg)
+    resolved = {}
+
+    def entries(name, depth=0):
+        if name in resolved:
+            return resolved[name]
+        if name not in cands or name in bad or stores.get(name, 0) != 1 or depth > 3:
+            return None
+        out = []
+        d = cands[name]
+        for k, v in zip(d.keys, d.values):
+            if k is None:
+                if not isinstance(v, ast.Name):
+                    return None
+                sub = entries(v.id, depth + 1)
+                if sub is None:
+                    return None
+                out = [e for e in out if e[0] not in {s_[0] for s_ in sub}] + sub
+            elif isinstance(k, ast.Constant) and isinstance(k.value, str) and k.value.isidentifier() and not _kw.iskeyword(k.value) and (_is_literal(v) or _is_ref(v)):
+                out = [e for e in out if e[0] != k.value] + [(k.value, v)]
+            else:
+                return None
+        resolved[name] = out
+        return out
+
+    class R(ast.NodeTransformer):
+        def visit_Call(self, node):
+            self.generic_visit(node)
+            new, changed = [], False
+            for k in node.keywords:
+                if k.arg is None and isinstance(k.value, ast.Name):
+                    es = entries(k.value.id)
+                    if es is not None:
+                        explicit = {q.arg for q in node.keywords if q.arg}
+                        if not (explicit & {e[0] for e in es}):
+                            new += [ast.copy_location(ast.keyword(arg=a, value=_copy(v)), k) for a, v in es]
+                            changed = True
+                            continue
+                new.append(k)
+            if changed:
+                node.keywords = new
+                count["K13"] = count.get("K13", 0) + 1
+            return node
+
+    R().visit(fn)
+
+
 def _inline_local_factories(fn, count):
     helpers = {}
     stores = {}
@@ -905,6 +977,9 @@ def canonicalise(tree):
     module_tables = _once_bound_literals(tree.body, tree)
     for fn in [n for n in ast.walk(tree) if isinstance(n, (ast.FunctionDef, ast.AsyncFunctionDef))]:
         _unroll_table_loops(fn, module_tables, count)
+    # K13: keyword dictionaries written out
+    for fn in [n for n in ast.walk(tree) if isinstance(n, (ast.FunctionDef, ast.AsyncFunctionDef))]:
+        _spread_keyword_dicts(fn, count)
     # K11: calls of small local factories
     for fn in [n for n in ast.walk(tree) if isinstance(n, (ast.FunctionDef, ast.AsyncFunctionDef))]:
         _inline_local_factories(fn, count)
